@@ -141,7 +141,11 @@ class Exporter(object):
                 raise Unsupported('arguments')
             return 'NArgs [%s]' % '; '.join(str(self.name(x.arg)) for x in a.args)
         if isinstance(a, ast.Assign):
-            return 'NAssign [%s] (%s)' % ('; '.join(self.target(t) for t in a.targets), self.expr(a.value))
+            # stores into an attribute / item of an EXTERNAL object bind no name and leave new_symbols alone
+            ts = [t for t in a.targets
+                  if not (isinstance(t, (ast.Attribute, ast.Subscript)) and isinstance(t.value, ast.Name)
+                          and t.value.id not in self.locals)]
+            return 'NAssign [%s] (%s)' % ('; '.join(self.target(t) for t in ts), self.expr(a.value))
         if isinstance(a, ast.AugAssign):
             if not isinstance(a.target, ast.Name) or self.has_visitor(a):
                 raise Unsupported('augmented assignment')
@@ -152,7 +156,7 @@ class Exporter(object):
             if self.has_visitor(a):
                 raise Unsupported('return visitor')
             return 'NExpr (%s)' % (self.expr(a.value) if a.value is not None else 'ETuple Enil')
-        if isinstance(a, ast.Pass):
+        if isinstance(a, (ast.Pass, ast.Break, ast.Continue)) and not self.has_visitor(a):
             return 'NExpr (ETuple Enil)'
         if isinstance(a, ast.expr):
             f = self.for_of_iter.get(id(a))
@@ -245,11 +249,21 @@ class Exporter(object):
             raise Unsupported('nested functions')
         g = self.graph
         nid = {n: self.prog.num[id(a)] for a, n in g.index.items()}
-        nodes = ['(%d, %s)' % (nid[n], self.node(a)) for a, n in g.index.items()]
-        succ = ['(%d, [%s])' % (nid[n], '; '.join(str(nid[m]) for m in n.next)) for n in g.index.values()]
-        prev = ['(%d, [%s])' % (nid[n], '; '.join(str(nid[m]) for m in n.prev)) for n in g.index.values()]
+        # dead code (no path from the entry, e.g. the statements after a loop whose else clause always jumps) is
+        # never visited by the walk and is not part of the exported graph: the theorems speak about executions
+        live = set()
+        todo = [g.entry]
+        while todo:
+            n = todo.pop()
+            if n not in live:
+                live.add(n)
+                todo.extend(n.next)
+        index = [(a, n) for a, n in g.index.items() if n in live]
+        nodes = ['(%d, %s)' % (nid[n], self.node(a)) for a, n in index]
+        succ = ['(%d, [%s])' % (nid[n], '; '.join(str(nid[m]) for m in n.next)) for a, n in index]
+        prev = ['(%d, [%s])' % (nid[n], '; '.join(str(nid[m]) for m in n.prev if m in live)) for a, n in index]
         sol = ['(%d, (%s, %s))' % (nid[n], self.tymap(self.analyzer.in_[n].types), self.tymap(self.analyzer.out[n].types))
-               for n in g.index.values()]
+               for a, n in index]
         clean = self.clean_names()
         tabs = self.tables()
         graph = 'mkgraph [%s] [%s] [%s] %d' % ('; '.join(nodes), '; '.join(succ), '; '.join(prev), nid[g.entry])
